@@ -584,6 +584,10 @@ func (x *extractor) parseAssign(stmts []ast.Stmt, key string, es errState) (int,
 		// SETVAL: v = true/false
 		if tv, ok := x.info.Types[as.Rhs[0]]; ok && tv.Value != nil && tv.Value.Kind() == 1 /* constant.Bool */ {
 			if v, ok := lo.(*types.Var); ok && v.Parent() != v.Pkg().Scope() {
+				if x.m.ValVar != "" && x.m.ValVar != v.Name() {
+					return fail("literal actions assign more than one variable")
+				}
+				x.m.ValVar = v.Name()
 				return 1, &lts.Prim{Kind: "SETVAL", Arg: tv.Value.String(), Ref: -1}, es, true
 			}
 		}
